@@ -669,6 +669,8 @@ func expandDecl(prop string, val []cTok) map[string]string {
 				return map[string]string{prop: fmtColor(0, 0, 0, 0)}
 			case strings.HasPrefix(prop, "border-") && strings.HasSuffix(prop, "-color") && prop != "border-color", prop == "text-decoration-color", prop == "text-emphasis-color":
 				return map[string]string{prop: "currentcolor"}
+			case prop == "border-color":
+				return map[string]string{"border-top-color": "currentcolor", "border-right-color": "currentcolor", "border-bottom-color": "currentcolor", "border-left-color": "currentcolor"}
 			case prop == "flex":
 				return map[string]string{"flex-grow": "0", "flex-shrink": "1", "flex-basis": "auto"}
 			case prop == "box-shadow" || prop == "text-shadow":
